@@ -81,6 +81,16 @@ func nickRun(e *Env) {
 			return
 		}
 	}
+	// ... and over every possible last byte (16 per run, all 256 within 16 runs)
+	for k := 0; k < 16; k++ {
+		in := []string{"n", "nick", "Beyonc\xc3"}[g.Intn(3)] + string([]byte{byte((e.Idx*16 + k) % 256)})
+		out := client.DefaultNewNick(in)
+		e.Check()
+		if bad := refDefaultNewNickOK(in, out); bad != "" {
+			e.Violation("default-generator", "DefaultNewNick(%q) = %q: %s", in, out, bad)
+			return
+		}
+	}
 	pre433 := g.W(4, 3, 2, 1)
 	welcomeForm := g.W(3, 2, 1)
 	welcomeDifferent := g.W(6, 2, 1, 2) // 0 same, 1 truncated, 2 unrelated, 3 same letters in another case
@@ -1367,6 +1377,11 @@ func logRun(e *Env) {
 	cfg := client.NewConfig("me", "ident", "name")
 	cfg.Pass = pw
 	cfg.EnableCapabilityNegotiation = capNeg
+	if g.Pct(25) {
+		// a server password and a SASL account at the same time (a bouncer)
+		cfg.Sasl = sasl.NewPlainClient("", "account", "sasl-secret")
+		e.S.Count("probe.password-together-with-sasl")
+	}
 	cfg.Server = "irc.sim"
 	cfg.Proxy = "sim://p"
 	cfg.Flood = g.Bool()
@@ -1380,7 +1395,7 @@ func logRun(e *Env) {
 		c.HandleFunc("001", func(c *client.Conn, l *client.Line) { panic(fmt.Sprintf("panic while handling %v", l.Args)) })
 	}
 	passLine := 1
-	if capNeg {
+	if capNeg || cfg.Sasl != nil {
 		passLine = 2
 	}
 	e.LinkPlan = func(l *simnet.Link) {
